@@ -1391,6 +1391,259 @@ func bdnSession(c *ctx, e *env, r *vh.Rng, n, nsteps int) {
 		replay, fmt.Sprintf("bdn-session %s n=%d %v", e.name, n, hist), naggs > 1)
 }
 
+// In-place buffer sessions: ONE message buffer (same backing array, offset and
+// - mostly - length), ONE signature buffer and ONE key point object are refilled
+// with new content before each call, and every scheme object (bls, the bls
+// inside tbls, the bls inside bdn) must answer for the CURRENT content: Sign
+// equals x*H(current message) computed without the scheme object, a signature
+// on the previous content is rejected, a genuine one on the new content is
+// accepted, Recover returns the signature on the current message.
+func inplaceSession(c *ctx, e *env, r *vh.Rng) {
+	arr := make([]byte, 96)
+	off, L := r.Intn(8), 2+r.Intn(40)
+	sarr := make([]byte, e.sigG.PointLen())
+	Xobj := e.keyG.Point()
+	type kp struct {
+		x  kyber.Scalar
+		X  kyber.Point
+		xd *big.Int
+	}
+	var keys []kp
+	var pubs []kyber.Point
+	for i := 0; i < 3; i++ {
+		x, X, xd := e.newKey(r)
+		keys = append(keys, kp{x, X, xd})
+		pubs = append(pubs, X)
+	}
+	t, n := 2, 3
+	pc := newPolyCtx(e, r, t)
+	shares := pc.poly.Shares(uint32(n))
+	shareK := func(i int) *big.Int { // the share as an integer of the real field
+		if e.dlog {
+			return evalq(pc.coefD, int64(i+1))
+		}
+		return vh.ScalarVal(shares[i].V)
+	}
+	secretK := vh.ScalarVal(pc.poly.Secret())
+	mask, err := bdn.NewMask(e.keyG, pubs, nil)
+	if err != nil {
+		panic(err)
+	}
+	for i := range pubs {
+		mask.SetBit(i, true)
+	}
+	aggPub, err := e.bdn.AggregatePublicKeys(mask)
+	if err != nil {
+		panic(err)
+	}
+	var qs, signs, hist []string
+	replay := map[string]interface{}{"type": "in-place-buffers", "env": e.name}
+	fail := func(key, what string) {
+		replay["history"] = append([]string{}, hist...)
+		c.rep.Fail(key, what+" (the message / signature / key object is the same one as in the previous call, refilled in place)", replay)
+	}
+	var prev struct {
+		m        []byte
+		h        *big.Int
+		sig, agg []byte
+		parts    [][]byte
+	}
+	nacc := 0
+	steps := 4 + r.Intn(3)
+	for k := 0; k < steps; k++ {
+		l := L
+		if k > 0 && r.Chance(25) { // the same array resliced shorter / longer
+			l = L - 1 + r.Intn(3)
+			c.rep.Dist("reuse:message-buffer-refilled-in-place/resliced")
+		} else {
+			c.rep.Dist("reuse:message-buffer-refilled-in-place/same-offset-and-length")
+		}
+		mk := r.Bytes(l)
+		mk[0] = byte(k) // differs from the previous content
+		buf := arr[off : off+l]
+		copy(buf, mk)
+		h := e.hdl(r, mk)
+		hist = append(hist, fmt.Sprintf("message %d: %s", k, vh.Hex(mk)))
+		want := e.sigOf(keys[0].xd, mk)
+		wantD := mulq(keys[0].xd, h)
+		var wantParts [][]byte
+		for i := 0; i < n; i++ {
+			wantParts = append(wantParts, append([]byte{0, byte(i)}, e.sigOf(shareK(i), mk)...))
+		}
+		wantRec := e.sigOf(secretK, mk)
+		verify := func(who string, f func(X kyber.Point, m, sg []byte) error, X kyber.Point, xd *big.Int, sg []byte, sgD *big.Int, expect bool, key string) {
+			Xobj.Set(X)
+			copy(sarr, sg)
+			ok := f(Xobj, buf, sarr[:len(sg)]) == nil
+			if ok {
+				nacc++
+			}
+			qs = append(qs, fmt.Sprintf("(%s, %s, %s, %s)", cz(xd), cz(h), copt(sgD), cb(ok)))
+			c.rep.Dist("reuse:verify-after-in-place-refill/" + who)
+			if ok != expect {
+				if ok {
+					fail(key, who+" accepts, for the current content of the buffer, a signature that is not a signature on it")
+				} else {
+					fail(key, who+" rejects a genuine signature on the current content of the buffer")
+				}
+			}
+		}
+		acts := shuffle(r, []int{0, 1, 2, 3, 4, 5})
+		for _, a := range acts {
+			switch a {
+			case 0: // bls Sign
+				sb, err := e.bls.Sign(keys[0].x, buf)
+				c.rep.Dist("reuse:sign-after-in-place-refill/bls")
+				if err != nil || !bytes.Equal(sb, want) {
+					fail("bls.Sign/message-buffer-refilled-in-place", "bls Sign does not sign the current content of the message buffer")
+				}
+				if e.dlog && err == nil {
+					if d := e.decode(sb); d != nil {
+						signs = append(signs, fmt.Sprintf("(%s, %s, %s)", cz(keys[0].xd), cz(h), cz(d)))
+					}
+				}
+			case 1: // bls Verify: old signature, new signature, other key object content
+				if prev.sig != nil {
+					verify("bls.Verify", e.bls.Verify, keys[0].X, keys[0].xd, prev.sig, mulq(keys[0].xd, prev.h), false, "bls.Verify/message-buffer-refilled-in-place")
+				}
+				verify("bls.Verify", e.bls.Verify, keys[0].X, keys[0].xd, want, wantD, true, "bls.Verify/message-buffer-refilled-in-place")
+				verify("bls.Verify", e.bls.Verify, keys[1].X, keys[1].xd, want, wantD, false, "bls.Verify/key-object-refilled-in-place")
+				verify("bls.Verify", e.bls.Verify, keys[0].X, keys[0].xd, want, wantD, true, "bls.Verify/key-object-refilled-in-place")
+			case 2: // tbls Sign / VerifyPartial
+				for i := 0; i < n; i++ {
+					pb, err := e.tbls.Sign(shares[i], buf)
+					c.rep.Dist("reuse:sign-after-in-place-refill/tbls")
+					if err != nil || !bytes.Equal(pb, wantParts[i]) {
+						fail("tbls.Sign/message-buffer-refilled-in-place", "tbls Sign does not sign the current content of the message buffer")
+					}
+				}
+				vp := func(pb []byte, sd *big.Int, i int, expect bool) {
+					ok := e.tbls.VerifyPartial(pc.pub, buf, pb) == nil
+					if ok {
+						nacc++
+					}
+					qs = append(qs, fmt.Sprintf("(%s, %s, %s, %s)", cz(evalq(pc.coefD, int64(i+1))), cz(h), copt(sd), cb(ok)))
+					c.rep.Dist("reuse:verify-after-in-place-refill/tbls.VerifyPartial")
+					if ok != expect {
+						fail("tbls.VerifyPartial/message-buffer-refilled-in-place", fmt.Sprintf("VerifyPartial verdict %v for the current content of the buffer, expected %v", ok, expect))
+					}
+				}
+				if prev.parts != nil {
+					vp(prev.parts[0], mulq(evalq(pc.coefD, 1), prev.h), 0, false)
+				}
+				vp(wantParts[1], mulq(evalq(pc.coefD, 2), h), 1, true)
+			case 3: // tbls Recover
+				rec, err := e.tbls.Recover(pc.pub, buf, [][]byte{wantParts[2], wantParts[0]}, uint32(t), uint32(n))
+				c.rep.Dist("reuse:recover-after-in-place-refill")
+				if err != nil || !bytes.Equal(rec, wantRec) {
+					fail("tbls.Recover/message-buffer-refilled-in-place", fmt.Sprintf("Recover over valid partials on the current content of the buffer fails or returns another signature (%v)", err))
+				} else if e.tbls.VerifyRecovered(pc.pub.Commit(), buf, rec) != nil {
+					fail("tbls.VerifyRecovered/message-buffer-refilled-in-place", "the recovered signature on the current content of the buffer is rejected")
+				}
+				if prev.parts != nil {
+					if rec, err := e.tbls.Recover(pc.pub, buf, prev.parts, uint32(t), uint32(n)); err == nil {
+						replay["recovered"] = vh.Hex(rec)
+						fail("tbls.Recover/message-buffer-refilled-in-place", "Recover accepts the partial signatures on the previous content of the buffer for the current one")
+					}
+				}
+			case 4: // bdn Sign / Verify
+				sb, err := e.bdn.Sign(keys[0].x, buf)
+				c.rep.Dist("reuse:sign-after-in-place-refill/bdn")
+				if err != nil || !bytes.Equal(sb, want) {
+					fail("bdn.Sign/message-buffer-refilled-in-place", "bdn Sign does not sign the current content of the message buffer")
+				}
+				if prev.sig != nil {
+					verify("bdn.Verify", e.bdn.Verify, keys[0].X, keys[0].xd, prev.sig, mulq(keys[0].xd, prev.h), false, "bdn.Verify/message-buffer-refilled-in-place")
+				}
+				verify("bdn.Verify", e.bdn.Verify, keys[0].X, keys[0].xd, want, wantD, true, "bdn.Verify/message-buffer-refilled-in-place")
+			case 5: // bdn aggregate over the three keys
+				var sigs [][]byte
+				for i := range keys {
+					sigs = append(sigs, e.sigOf(keys[i].xd, mk))
+				}
+				aggSig, err := e.bdn.AggregateSignatures(sigs, mask)
+				if err != nil {
+					fail("bdn.Aggregate/honest-error", err.Error())
+					continue
+				}
+				ab, _ := aggSig.MarshalBinary()
+				c.rep.Dist("reuse:verify-after-in-place-refill/bdn-aggregate")
+				if prev.agg != nil && e.bdn.Verify(aggPub, buf, prev.agg) == nil {
+					fail("bdn.Verify/message-buffer-refilled-in-place", "the aggregate signature on the previous content of the buffer verifies for the current one")
+				}
+				if e.bdn.Verify(aggPub, buf, ab) != nil {
+					fail("bdn.Verify/message-buffer-refilled-in-place", "the aggregate signature on the current content of the buffer is rejected")
+				}
+				prev.agg = ab
+			}
+		}
+		if !bytes.Equal(buf, mk) {
+			fail("bls/inputs-mutated", "a call changed the message buffer")
+		}
+		prev.m, prev.h, prev.sig, prev.parts = mk, h, want, wantParts
+	}
+	c.rep.Dist("inplace:" + e.name)
+	replay["history"] = hist
+	c.emit(fmt.Sprintf("CBls %d %s %s %s", c.id, cb(e.g1), vh.CoqList(signs), vh.CoqList(qs)), replay,
+		fmt.Sprintf("inplace %s %v", e.name, hist), nacc > 0)
+}
+
+// the same for cosi.Verify: one message buffer and one signature buffer refilled in place
+func cosiInplace(c *ctx, r *vh.Rng, real bool) {
+	var suite cosi.Suite
+	var g *vh.DlogGroup
+	if real {
+		suite = &edSuite{edwards25519.NewBlakeSHA256Ed25519(), stream(r)}
+	} else {
+		g = vh.NewDlogGroup(Q, stream(r))
+		suite = g
+	}
+	n := 2 + r.Intn(5)
+	var pubs []kyber.Point
+	var privs []kyber.Scalar
+	var pubD []*big.Int
+	bits := make([]bool, n)
+	for i := 0; i < n; i++ {
+		x := suite.Scalar().Pick(stream(r))
+		privs, pubs = append(privs, x), append(pubs, suite.Point().Mul(x, nil))
+		if !real {
+			pubD = append(pubD, vh.ScalarVal(x))
+		}
+		bits[i] = true
+	}
+	L := 1 + r.Intn(40)
+	var msgs, sigs [][]byte
+	for k := 0; k < 3; k++ {
+		m := r.Bytes(L)
+		m[0] = byte(k)
+		sg, err := cosiSign(suite, pubs, privs, bits, m)
+		if err != nil {
+			c.rep.Fail("cosi.Sign/protocol-error", err.Error(), map[string]interface{}{"n": n})
+			return
+		}
+		msgs, sigs = append(msgs, m), append(sigs, sg)
+	}
+	mbuf, sbuf := make([]byte, L), make([]byte, len(sigs[0]))
+	pol := cosiPolicySpec{kind: 1}
+	for step := 0; step < 6; step++ {
+		mi, si := r.Intn(3), r.Intn(3)
+		if step%2 == 0 {
+			si = mi
+		}
+		copy(mbuf, msgs[mi])
+		copy(sbuf, sigs[si])
+		ok := cosi.Verify(suite, pubs, mbuf, sbuf, pol.mk()) == nil
+		replay := map[string]interface{}{"type": "cosi-in-place-buffers", "real": real, "n": n, "msg": vh.Hex(mbuf), "sig": vh.Hex(sbuf), "signature_is_for_message": si, "message": mi}
+		c.rep.Dist("reuse:verify-after-in-place-refill/cosi.Verify")
+		if ok != (mi == si) {
+			c.rep.Fail("cosi.Verify/buffer-refilled-in-place", fmt.Sprintf("verdict %v for the current content of the message and signature buffers, expected %v", ok, mi == si), replay)
+		}
+		if !real {
+			emitCosiV(c, g, pubs, pubD, append([]byte{}, sbuf...), append([]byte{}, mbuf...), pol, ok, replay, fmt.Sprintf("cosi-inplace %x %x", mbuf, sbuf))
+		}
+	}
+}
+
 func cb01(b bool) string {
 	if b {
 		return "1"
@@ -2028,7 +2281,7 @@ func (s *edSuite) RandomStream() cipher.Stream { return s.rnd }
 func main() {
 	o := vh.ParseFlags()
 	rep := vh.NewReport("C09", o.Seed, o.Tier)
-	rep.Rule = "scenarios over the transparent dlog pairing suite (exact values) and the 8 real (suite, signature group) combinations (verdicts, byte equalities): BLS sign/verify matrices over keys x messages x honest/tampered/garbage signatures; threshold BLS for all (t,n), 2<=t<=n<=6, every t-subset for n<=5 in random order with injected duplicates / other-message / wrong-index / garbage / truncated / beyond-n / scaled / identity partials; BDN masks over 1..10 cosigners built by NewMask with and without own key followed by every SetBit/SetMask/Merge/Clone kind sequence of length <=4, aggregation, verification under the same mask, another mask and another message; BDN sessions in which several mask objects sharing one NewMask (base mask, clones, further NewMask results over the same key slice) are reused for 6..20 interleaved SetBit/SetMask/Merge/Clone/AggregatePublicKeys/AggregateSignatures/Verify calls with every call observed; one sharing polynomial / PubPoly reused by all Recover scenarios of a (t,n), each Recover repeated in another order; every aggregation / recovery function (cosi.AggregateCommitments, AggregateResponses, AggregateMasks, bdn.AggregateSignatures, AggregatePublicKeys, tbls.Recover) is called several times on the same caller-owned objects and on overlapping sub-slices (prefix, whole, whole again) inside sessions that keep masks, key lists, commitments and responses alive over several rounds; buffers handed in (messages, signatures, mask bytes, partial signatures) are overwritten after the call and earlier results re-checked; lists longer than n with all junk and duplicates before the valid partials; after every call the values it only reads (keys, coefficients, terms, commitments, signatures, messages) are compared with their fingerprint before it; CoSi mask operation sequences and signed/tampered collective signatures under nil/Complete/Threshold policies. distinct = distinct scenario text; non-trivial = at least one accepted verification / one partial / one mask operation"
+	rep.Rule = "scenarios over the transparent dlog pairing suite (exact values) and the 8 real (suite, signature group) combinations (verdicts, byte equalities): BLS sign/verify matrices over keys x messages x honest/tampered/garbage signatures; threshold BLS for all (t,n), 2<=t<=n<=6, every t-subset for n<=5 in random order with injected duplicates / other-message / wrong-index / garbage / truncated / beyond-n / scaled / identity partials; BDN masks over 1..10 cosigners built by NewMask with and without own key followed by every SetBit/SetMask/Merge/Clone kind sequence of length <=4, aggregation, verification under the same mask, another mask and another message; BDN sessions in which several mask objects sharing one NewMask (base mask, clones, further NewMask results over the same key slice) are reused for 6..20 interleaved SetBit/SetMask/Merge/Clone/AggregatePublicKeys/AggregateSignatures/Verify calls with every call observed; one sharing polynomial / PubPoly reused by all Recover scenarios of a (t,n), each Recover repeated in another order; every aggregation / recovery function (cosi.AggregateCommitments, AggregateResponses, AggregateMasks, bdn.AggregateSignatures, AggregatePublicKeys, tbls.Recover) is called several times on the same caller-owned objects and on overlapping sub-slices (prefix, whole, whole again) inside sessions that keep masks, key lists, commitments and responses alive over several rounds; buffers handed in (messages, signatures, mask bytes, partial signatures) are overwritten after the call and earlier results re-checked; one message buffer (same backing array, offset and length, or resliced), one signature buffer and one key point object refilled IN PLACE with new content before each call to bls / tbls / bdn / cosi Sign, Verify, VerifyPartial, Recover, with the verdicts and values required for the current content (signature on the previous content rejected, genuine one accepted, Sign equal to x*H(current message) computed without the scheme object); lists longer than n with all junk and duplicates before the valid partials; after every call the values it only reads (keys, coefficients, terms, commitments, signatures, messages) are compared with their fingerprint before it; CoSi mask operation sequences and signed/tampered collective signatures under nil/Complete/Threshold policies. distinct = distinct scenario text; non-trivial = at least one accepted verification / one partial / one mask operation"
 	cf := &vh.CaseFile{Header: "From Kyber Require Import MSig.MSigSM MSig.MSigRun.", Type: "case", Runner: "mismatches"}
 	c := &ctx{rep: rep, cf: cf, search: o.Search}
 	r := vh.NewRng(o.Seed)
@@ -2102,6 +2355,20 @@ func main() {
 		for k := 0; k < 2*scale; k++ {
 			bdnSession(c, e, r.Fork(), 1+r.Intn(10), 6+r.Intn(8))
 		}
+	}
+	// one message / signature buffer and key object refilled in place before every call
+	for _, e := range des {
+		for k := 0; k < 6*scale; k++ {
+			inplaceSession(c, e, r.Fork())
+		}
+	}
+	for _, e := range res {
+		for k := 0; k < scale; k++ {
+			inplaceSession(c, e, r.Fork())
+		}
+	}
+	for k := 0; k < 8*scale; k++ {
+		cosiInplace(c, r.Fork(), k%4 == 3)
 	}
 	// CoSi
 	for k := 0; k < 60*scale; k++ {
